@@ -19,7 +19,7 @@ GENS = [("gen_consts.py", "Consts.v"), ("gen_callgraph.py", "CallGraph.v"), ("ge
         ("gen_helpers2.py", "GenHelpers2.v"), ("gen_helpers3.py", "GenHelpers3.v"), ("gen_storage.py", "GenStorage.v"), ("gen_node.py", "GenNode.v"),
         ("gen_links.py", "GenLinks.v"), ("gen_trie.py", "GenTrie.v"), ("gen_triew.py", "GenTrieW.v"),
         ("gen_tried.py", "GenTrieD.v"), ("gen_traph.py", "GenTraph.v"), ("gen_traphw.py", "GenTraphW.v"),
-        ("gen_traphl.py", "GenTraphL.v"), ("gen_traphp.py", "GenTraphP.v"), ("gen_traphk.py", "GenTraphK.v"), ("gen_traphb.py", "GenTraphB.v"), ("gen_traphq.py", "GenTraphQ.v"), ("gen_traphm.py", "GenTraphM.v"), ("gen_traphn.py", "GenTraphN.v"), ("gen_traphx.py", "GenTraphX.v"), ("gen_triei.py", "GenTrieI.v"), ("gen_traphg.py", "GenTraphG.v"), ("gen_traphh.py", "GenTraphH.v"), ("gen_traphr.py", "GenTraphR.v"), ("gen_traphn2.py", "GenTraphN2.v"), ("gen_traphz.py", "GenTraphZ.v"), ("gen_traphv.py", "GenTraphV.v"), ("gen_traphi.py", "GenTraphI.v")]
+        ("gen_traphl.py", "GenTraphL.v"), ("gen_traphp.py", "GenTraphP.v"), ("gen_traphk.py", "GenTraphK.v"), ("gen_traphb.py", "GenTraphB.v"), ("gen_traphq.py", "GenTraphQ.v"), ("gen_traphm.py", "GenTraphM.v"), ("gen_traphn.py", "GenTraphN.v"), ("gen_traphx.py", "GenTraphX.v"), ("gen_triei.py", "GenTrieI.v"), ("gen_traphg.py", "GenTraphG.v"), ("gen_traphh.py", "GenTraphH.v"), ("gen_traphr.py", "GenTraphR.v"), ("gen_traphn2.py", "GenTraphN2.v"), ("gen_traphz.py", "GenTraphZ.v"), ("gen_traphv.py", "GenTraphV.v"), ("gen_traphi.py", "GenTraphI.v"), ("gen_triem.py", "GenTrieM.v")]
 
 
 def sh(cmd, cwd=None, env=None, timeout=3600):
